@@ -67,6 +67,19 @@ def cones(ctx):
                    ("int_rep3", [[1, 0, 0], [0, 1, 0], [0, 0, 1], [0, 0, 1]]), ("int_perm3", np.array([[0, 0, 1], [1, 0, 0], [0, 1, 0]])),
                    ("int_wedge4", [[1, 0, 0, 0], [0, 1, 0, 0], [0, 0, 1, 0]]), ("int_orth4", np.eye(4, dtype=int))):
         out.append((nm, OrderingCone(Wi)))
+    # cones written with rows that are NOT unit vectors (legal: OrderingCone accepts any matrix; alpha_n is still the maximum
+    # of w_n.u over unit cone vectors, so it scales with the row) — and the same cones with unit rows
+    for nm, Wn in (("scaled_orth2", [[3.0, 0.0], [0.0, 3.0]]), ("diag2", [[2.0, 0.0], [0.0, 0.5]]), ("skew2", [[1.0, 0.0], [-1.0, 2.0]]),
+                   ("skew3", [[2.0, 0.0, 0.0], [0.0, 1.0, 0.0], [1.0, 1.0, 3.0]])):
+        out.append((nm, OrderingCone(np.array(Wn))))
+    # the matrix handed to the constructor belongs to the caller, who may go on using its buffer (deterministic): the cone
+    # built from it keeps its own facets, and its constants stay those of its own facets
+    buf = np.array([[1.0, 0.0], [0.0, 1.0]])
+    for th in (100.0, 40.0, 150.0):
+        buf[:] = np.array(ConeTheta2DOrder(th).ordering_cone.W, dtype=float)
+        oc = OrderingCone(buf)
+        buf[:] = np.array(ConeTheta2DOrder(175.0 - th).ordering_cone.W, dtype=float)      # the caller refills its buffer with another cone
+        out.append((f"callerbuf{int(th)}", oc))       # judged below against the matrix the cone object now shows
     for _ in range(6 if ctx.quick else 60):
         m = rng.choice([2, 3, 4]); K = rng.randint(m, m + 2)
         e = np.ones(m) / math.sqrt(m)
